@@ -354,6 +354,33 @@ def _tuple(acc):
                                       f"import sys\nsys.path.insert(0, '/verif')\nfrom utmc.ns import *\n"
                                       f"try:\n    print(type_transform({vx}, T({ann}), options=Options(**{FLAGS[oi]!r}))); sys.exit(1)\n"
                                       f"except exc.ParseError as e:\n    print('rejected', e); sys.exit(0)\n")
+                # no_data_loss next to an explicitly permissive addition, and reached through a function with **kwargs
+                # (the function parser adds addition=True to its options): extra tuple items are still rejected
+                if m > n:
+                    for addx in ("True", "int"):
+                        for oi in (2, 3):
+                            o = eval(f"Options(addition={addx}, **{FLAGS[oi]!r})", _NS)
+                            st, r = call_guarded(lambda: _NS["type_transform"](ev(vx), t, options=o), wall_s=1.0, step_budget=400_000)
+                            acc.transitions += 1
+                            if st == "ok":
+                                flags = "+".join(sorted(FLAGS[oi]))
+                                acc.violation(f"C12|{ann}|no-data-loss-extra-items-{flags}-with-addition|{spelling}",
+                                              f"type_transform({vx}, T({ann})) under {flags} and addition={addx} keeps/drops "
+                                              f"{m - n} extra items: {short(r, 40)}",
+                                              f"import sys\nsys.path.insert(0, '/verif')\nfrom utmc.ns import *\n"
+                                              f"try:\n    print(type_transform({vx}, T({ann}), options=Options(addition={addx}, **{FLAGS[oi]!r}))); sys.exit(1)\n"
+                                              f"except exc.ParseError as e:\n    print('rejected', e); sys.exit(0)\n")
+                    env = dict(_NS)
+                    exec(f"@utype.parse(options=Options(no_data_loss=True))\ndef W(a: {ann}, **kwargs):\n    return a\n", env)
+                    st, r = call_guarded(lambda: env["W"](ev(vx)), wall_s=1.0, step_budget=400_000)
+                    acc.transitions += 1
+                    if st == "ok":
+                        acc.violation(f"C12|{ann}|no-data-loss-extra-items-function-with-kwargs|{spelling}",
+                                      f"@utype.parse(options=Options(no_data_loss=True)) def W(a: {ann}, **kwargs): W({vx}) keeps/drops "
+                                      f"{m - n} extra items: {short(r, 40)}",
+                                      f"import sys\nsys.path.insert(0, '/verif')\nfrom utmc.ns import *\n"
+                                      f"@utype.parse(options=Options(no_data_loss=True))\ndef W(a: {ann}, **kwargs):\n    return a\n"
+                                      f"try:\n    print(W({vx})); sys.exit(1)\nexcept exc.ParseError as e:\n    print('rejected', e); sys.exit(0)\n")
                 for oi in (1, 2, 3):
                     if res[oi][0] == "ok" and (res[0][0] != "ok" or canon(res[0][1]) != canon(res[oi][1])):
                         acc.violation(f"C12|{ann}|restrict-only|{spelling}",
